@@ -23,7 +23,7 @@ ASSUMPTIONS = [
 MANIFEST = {'text': 'proof (all normal paths of the stage) of: no message-carrying value dropped un-drained, no clone, FIFO-only queue API, direct send and store on opposite edges of the '
                     'buffered-lifecycles test, a queue-drain test after every un-buffering, every message passes Lifecycle::new/update (which store `lifecycle` on every path) before it '
                     'is sent or queued, and the stage writes no other message field.'
-                    ' Added: inside the receive loop a message leaves the queue only where its lifecycle is known not to be buffered. Added: a held-back lifecycle is un-buffered during a scan over the lifecycles only by conditions on time quantities of that lifecycle (the merge logic asserts that confirmation is monotone). Added: own ECU - every keyed access to the ECU -> lifecycles map uses the .ecu field of the message / lifecycle being filed, and Lifecycle::new copies its message\'s ECU. Added: a possibly confirmed lifecycle is merged away only behind the exact count `queued messages of it (+1) == nr_msgs` (shared with C07 P7); bulk removals from the queue inside the receive loop only with nothing buffered.'}
+                    ' Added: inside the receive loop a message leaves the queue only where its lifecycle is known not to be buffered. Added: a held-back lifecycle is un-buffered during a scan over the lifecycles only by conditions on time quantities of that lifecycle (the merge logic asserts that confirmation is monotone). Added: own ECU - every keyed access to the ECU -> lifecycles map uses the .ecu field of the message / lifecycle being filed, and Lifecycle::new copies its message\'s ECU. Added: a possibly confirmed lifecycle is merged away only behind the exact count `queued messages of it (+1) == nr_msgs` (shared with C07 P7); bulk removals from the queue inside the receive loop only with nothing buffered. Added: a lifecycle leaves the per-ECU working list only on a path that merged it away in the same pass of the receive loop.'}
 
 QUEUE_OK = re.compile(r'::(with_capacity|new|push_back|pop_front|is_empty|len|iter|iter_mut|index|into_iter|front|capacity|get|back)$')
 
@@ -57,6 +57,8 @@ def run(F, chk):
         check_queue_release(st, Q5)
         P7 = chk.rule('P7', 'a possibly confirmed (partly forwarded) lifecycle is merged away only when all of its messages are still queued (queued count == nr_msgs): forwarded messages never keep an id that no longer denotes a lifecycle (shared with C07)')
         c07.check_merge_needs_all_queued(st, P7)
+        A3 = chk.rule('A3', 'a lifecycle leaves the per-ECU working list only on a path that merged it away in this pass of the receive loop (every publication looks lifecycles up in that list: one dropped from it while unconfirmed is never published although its messages are delivered)')
+        check_lifecycle_removal(F, st, A3)
         A2 = chk.rule('A2', 'own ECU: every keyed access to the ECU -> lifecycles map uses the `.ecu` field of the very message (or table lifecycle) being filed; inside the receive loop that is the received message handed to Lifecycle::new/update')
         check_own_ecu(F, st, A2)
         Q6 = chk.rule('Q6', 'a held-back lifecycle is confirmed (un-buffered while scanning the lifecycles) by time quantities only - the merge logic relies on that')
@@ -65,6 +67,47 @@ def run(F, chk):
 
 ECU_MAP = re.compile(r'^(&mut |&)?std::collections::HashMap<adlt::dlt::DltChar4, std::vec::Vec<adlt::lifecycle::Lifecycle>')
 KEYED = re.compile(r'::(entry|get|get_mut|insert|remove|remove_entry|contains_key|get_key_value|try_insert|get_or_insert_with|raw_entry_mut|entry_ref)$')
+
+
+LC_LIST_REMOVE = re.compile(r'::(remove|pop|truncate|retain|retain_mut|drain|clear|swap_remove|split_off|dedup_by|dedup_by_key|pop_if)$')
+
+
+def check_lifecycle_removal(F, st, A3):
+    """"an id that denotes a lifecycle": the detector publishes lifecycles from its per-ECU lists (confirmation scan, regular
+    refresh, end of stream).  The only legitimate way out of such a list is the merge into the previous lifecycle (whose id the
+    messages are relabelled to).  Any other removal - a cap on the list length, an age limit - can hit a lifecycle that is
+    still unconfirmed or has a refresh pending: it is then never (re)published, but its messages still carry its id."""
+    from paths import Explorer
+    body, cfg = st.body, st.cfg
+    A3.fn(body.path)
+    merges = set(st.blocks_with('MERGE'))
+    recvs = set(st.blocks_with('RECV_IN'))
+    sites = []
+    for blk in body.calls():
+        t = blk.term
+        if t.args and re.match(r'^&mut std::vec::Vec<adlt::lifecycle::Lifecycle', t.args[0].ty or '') and LC_LIST_REMOVE.search(t.callee.path):
+            sites.append(blk.i)
+    A3.floor('removals from a per-ECU lifecycle list', len(sites), 1)
+
+    def block_effect(blk, facts):
+        if blk.i in recvs:
+            facts = frozenset(f for f in facts if f != ('merged',))
+        if blk.i in merges:
+            facts = frozenset(facts | {('merged',)})
+        return facts
+    ex = Explorer(cfg, block_effect=block_effect, var_roots=set())
+    ex.run()
+    A3.paths += ex.n_states
+    for bi in sites:
+        A3.sites += 1
+        states = ex.states.get(bi, set())
+        bad = [s_ for s_ in states if ('merged',) not in s_[1]]
+        where = body.loc(body.blocks[bi].term.sp)
+        if bad:
+            A3.violation(('lifecycle-dropped-without-merge', body.path, body.blocks[bi].term.callee.path.split('::')[-1]), 'a lifecycle is removed from its per-ECU list at %s on a path that did not merge it in this pass: if it is still unconfirmed (or a refresh is pending) '
+                         'it is never published, while its messages are delivered with its id' % where, where=where, witness={'block_path': ex.witness(bi, bad[0])[-40:]})
+        else:
+            A3.ok(sample={'removal_at': where, 'only_after': 'Lifecycle::merge in the same pass', 'states': len(states)})
 
 
 def check_own_ecu(F, st, A2):
